@@ -42,8 +42,8 @@ def catch(cls, body): return {"cls": cls, "body": list(body)}
 def func(name, params, body, catches=()): return {"name": name, "params": list(params), "body": list(body), "catches": list(catches)}
 def cls(name, props, ctor=None, methods=()):
     return {"name": name, "props": [{"n": n, "e": e} for n, e in props], "ctor": [ctor] if ctor else [], "methods": list(methods)}
-def prog(main, funcs=(), classes=(), catches=()):
-    return {"funcs": list(funcs), "classes": list(classes), "main": list(main), "catches": list(catches)}
+def prog(main, funcs=(), classes=(), catches=(), inputs=()):
+    return {"funcs": list(funcs), "classes": list(classes), "main": list(main), "catches": list(catches), "inputs": list(inputs)}
 
 
 # ------------------------------------------------------------------ value comparison
